@@ -406,6 +406,26 @@ fn fileloads(out: &mut Out, r: &mut Rng, count: u64) {
         let m_file = i % 2 == 1;
         let seed = r.below(1 << 16) as u32;
         let (mut d, mut ramw) = random_desc(r, m_file, seed);
+        // a third of the machines hold pages that no compressor can shrink (packed or encrypted data): their zlib streams
+        // are longer than the page itself. (The screen banks keep the pattern the spec can decode.)
+        if r.chance(1, 3) {
+            for b in [0usize, 1, 2, 3, 4, 6] {
+                if r.chance(1, 2) {
+                    let key = r.next();
+                    let mut x = key | 1;
+                    for o in 0..16384usize {
+                        // xorshift64*: high-entropy bytes
+                        x ^= x >> 12;
+                        x ^= x << 25;
+                        x ^= x >> 27;
+                        d.banks[b][o] = (x.wrapping_mul(0x2545F4914F6CDD1D) >> 56) as u8;
+                    }
+                }
+            }
+            for (b, o, v) in ramw.iter() {
+                d.banks[*b][*o as usize] = *v;
+            }
+        }
         if r.chance(1, 2) {
             d.cpu.iff1 = r.chance(1, 2); // SZX carries IFF1 separately
         }
